@@ -287,6 +287,9 @@ func init() {
 			b := newBatcher(c, judgeHOTP, 0)
 			c01Cases(c, b.add)
 			b.flush()
+			// sequential history: consecutive calls whose textual renderings of (secret, counter, digits) collide when
+			// concatenated without separators (a cache keyed that way returns the previous call's code)
+			c01ShiftHistory(c)
 			// hooked: key and message actually fed to the HMAC
 			if hooks.Available() {
 				checkHMACInputsHOTP(c)
@@ -311,6 +314,41 @@ func init() {
 			return fmt.Errorf("unknown kind %q", kind)
 		},
 	})
+}
+
+func c01ShiftHistory(c *Ctx) {
+	rng := c.RNG.Fork(111)
+	for i := 0; i < c.N(400, 6000); i++ {
+		key := rng.Bytes(10) // 16 base32 characters, no padding
+		base := ref.Base32EncodeNoPad(key)
+		ctr := uint64(rng.Intn(1000))
+		d := 1 + rng.Intn(10)
+		orig := []string{base, fmt.Sprint(ctr), fmt.Sprint(d)}
+		emit := func(f []string) {
+			var cv uint64
+			var dv int
+			if _, err := fmt.Sscan(f[1], &cv); err != nil || fmt.Sprint(cv) != f[1] {
+				return
+			}
+			if _, err := fmt.Sscan(f[2], &dv); err != nil || dv < 0 || dv > 255 {
+				return
+			}
+			k, derr := ref.Base32Decode(f[0])
+			if derr != nil || ref.Base32EncodeNoPad(k) != f[0] {
+				return // not a canonical spelling of some key
+			}
+			judgeHOTP(c, hotpCase{KeyHex: hexs(k), Secret: f[0], Counter: cv, Digits: uint8(dv), Algo: uint8(i % 3)})
+			c.R.Count("shifted_field_history_calls", 1)
+		}
+		for _, v := range gen.ShiftPairs(orig) {
+			emit(orig)
+			emit(v)
+		}
+		// a secret extended by characters that also read as digits, then the shorter secret with those digits in the counter
+		x := gen.Pick(rng, []string{"24", "37", "2345", "77", "6652"})
+		emit([]string{base + x, fmt.Sprint(ctr), fmt.Sprint(d)})
+		emit([]string{base, x + fmt.Sprint(ctr), fmt.Sprint(d)})
+	}
 }
 
 func parallelJudge[T any](c *Ctx, cases []T, judge func(*Ctx, T)) {
